@@ -462,6 +462,20 @@ func edCase(a *edAPI, k, mi, mlen int) {
 		if lib.Eq(sigT, sigP) {
 			lib.Violation("C02:mode-collision:"+a.name, a.mon, det())
 		}
+		// ... and the ph signature over M is not a ph signature over the
+		// digest PH(M) taken as a message (a verifier that accepts "an already
+		// hashed message" of the digest's length), nor the other way round
+		tg3 := &target{subject: a.name, entry: "Verify", mon: a.mon, detail: det,
+			verify: func(x []byte) bool { return a.verify(pk, digest, x, mp) }}
+		tg3.expectReject("mode-prehash-digest", sigP, "what", "ph signature over M verified as ph signature over the message PH(M)")
+		sigPD := a.sign(sk, digest, mp) // ph variant over the message PH(M)
+		if !a.verify(pk, digest, sigPD, mp) {
+			lib.Violation("C02:honest-rejected:"+a.name+":prehash-of-digest-length-message", a.mon, det())
+		} else {
+			tg4 := &target{subject: a.name, entry: "Verify", mon: a.mon, detail: det,
+				verify: func(x []byte) bool { return a.verify(pk, msg, x, mp) }}
+			tg4.expectReject("mode-prehash-digest", sigPD, "what", "ph signature over the message PH(M) verified as ph signature over M")
+		}
 	}
 
 	// a signature of one admissible mode is never byte-identical to that of
